@@ -7,6 +7,7 @@
 From Coq Require Import ZArith List Bool Lia.
 Import ListNotations.
 Require Import SV.Common SV.C11.Base SV.C11.Utf8 SV.C11.Gen_events SV.C11.Envelope SV.C11.Tick SV.C11.Notify.
+Require Import SV.C11.Capture SV.C11.Listeners SV.C11.CaptureProofs SV.C11.ListenersProofs.
 Require Import SV.C11.Routing SV.C11.Utf8Proofs SV.C11.EnvelopeProofs SV.C11.TickProofs SV.C11.NotifyProofs SV.C11.RoutingProofs.
 Open Scope Z_scope.
 
@@ -326,3 +327,23 @@ Theorem c11_reject_frame : forall l l' w q s0, pools_get w q = Some s0 ->
   sent_of (rrun w l) q = sent_of (rrun w l') q.
 Proof. exact reject_frame. Qed.
 Print Assumptions c11_reject_frame.
+
+(* ---------------------------------------------------------------- PROCESS_COMMUNICATION data; listeners of one pool *)
+
+(* data that fits capture_maxbytes is carried whole, in whatever pieces it was read and logged *)
+Theorem c11_capture_whole : forall m chunks, zlen (concat chunks) <= m -> bound_writes m chunks = concat chunks.
+Proof. exact capture_whole. Qed.
+Print Assumptions c11_capture_whole.
+
+(* always: at most capture_maxbytes bytes, and they are the newest ones *)
+Theorem c11_capture_bound_suffix : forall m chunks buf, 0 <= m -> zlen buf <= m ->
+  zlen (fold_left (bound_write m) chunks buf) <= m /\
+  exists pre, buf ++ concat chunks = pre ++ fold_left (bound_write m) chunks buf.
+Proof. exact capture_bound_suffix. Qed.
+Print Assumptions c11_capture_bound_suffix.
+
+(* over every history of emissions, dispatches, OK / FAIL answers, malformed result
+   lines and listener deaths: an event acknowledged OK is never sent again *)
+Theorem c11_never_again_after_ok : forall n l, once_after_ok (l_log (lrun n l)) = true.
+Proof. exact never_again_after_ok. Qed.
+Print Assumptions c11_never_again_after_ok.
